@@ -2,7 +2,7 @@
    early); that the same transaction is accepted exactly at the bound (not late) is exercised by the boundary
    probes of the correspondence at bound-1 / bound / bound+1. *)
 From Coq Require Import ZArith List Bool.
-From Sia Require Import Prim.Result Prim.Tok Policy.Model Policy.Proofs Ledger.Types Ledger.Mid Ledger.Validate Ledger.Apply Ledger.Proofs.
+From Sia Require Import Prim.Result Prim.Tok Policy.Model Policy.Proofs Ledger.Types Ledger.Mid Ledger.Validate Ledger.Apply Ledger.Proofs Ledger.Auth.
 Import ListNotations.
 Open Scope Z_scope.
 
@@ -43,3 +43,15 @@ Theorem C08_policy_locks : forall height median sigok preok se sd h t s,
   (verify height median sigok preok se sd (PAbove h) s = Ok s <-> (h <= height)%N) /\ (verify height median sigok preok se sd (PAfter t) s = Ok s <-> t < median).
 Proof. intros. split; [apply above_iff|apply after_iff]. Qed.
 Print Assumptions C08_policy_locks.
+
+(* a v2 storage proof is accepted only from the proof height on and against the chain index element of exactly that
+   height, which must be in the accumulator; an expiration only after the expiration height *)
+Theorem C08_v2_resolution_heights : forall H vt s rs, validate_resolution H vt s rs = Ok tt ->
+  let fc := v2_fc (p_val (rs_parent rs)) in
+  match rs_res rs with
+  | RProof sp => c_proof_height fc <= child s /\ snd (p_val (sp2_index sp)) = c_proof_height fc /\ fst (mem_ci s (sp2_index sp)) = true
+  | RExpiration => c_exp_height fc < child s
+  | RRenewal _ => True
+  end.
+Proof. exact resolution_heights. Qed.
+Print Assumptions C08_v2_resolution_heights.
